@@ -684,9 +684,17 @@ def _run(case):
         if not np.array_equal(v, ya):
             return bad("value through a Linearization differs from the plain value by %.3g" % np.abs(v - ya).max(),
                        finding_key=_key(case, "linearization-value-differs"), detail=det)
-        if not np.all(jac > 0):
-            return bad("Jacobian of a monotone transform is not positive (min %.3g)" % jac.min(),
-                       finding_key=_key(case, "jacobian-not-positive"), detail=det)
+        # coarse sanity of the Jacobian (exactness of derivatives is C03's subject): wherever the target rises across one
+        # table cell by clearly more than the tolerance, the derivative must be positive and of the right magnitude
+        slope = np.stack([(R.quantile_of_xi(d_, post, xi + 1e-3) - R.quantile_of_xi(d_, post, xi - 1e-3)) / 2e-3
+                          for d_, post in dists])
+        jg = jac[:, :n]
+        chk = slope * step > 10 * tol
+        if np.any(chk & ~((jg >= 0.5 * slope) & (jg <= 2 * slope))):
+            i, j = np.argwhere(chk & ~((jg >= 0.5 * slope) & (jg <= 2 * slope)))[0]
+            return bad("Jacobian at xi = %.6g is %.6g, the target quantile function has slope %.6g; parameters %s"
+                       % (xi[j], jg[i, j], slope[i, j], rows[i]), finding_key=_key(case, "jacobian-sign-or-scale"), detail=det)
+        stats["jacobian_points"] = int(chk.sum())
 
     # ---------------------------------------------------------------- documented statistics of the classic operators
     if b.props:
